@@ -17,4 +17,6 @@ CASES = [
   'edits': [{'file': 'src/geophires_x/Reservoir.py', 'old': "                maxdepth = maxdepth + (self.Tmax.value - intersecttemperature[layerindex - 1]) / self.gradient.value[\n                    layerindex]", 'new': "                maxdepth = maxdepth + (self.Tmax.value - intersecttemperature[layerindex - 1]) / self.gradient.value[\n                    layerindex - 1]"}]},
  {'id': 'C18-t1-formula-horner', 'property': 'C18', 'kind': 'twin',
   'edits': [{'file': O, 'old': "        return (self._c2 * meters ** 2 + self._c1 * meters + self._c0) * 1E-6", 'new': "        return ((self._c2 * meters + self._c1) * meters + self._c0) * 1E-6"}]},
+ {'id': 'C18-hc1-lateral-length-not-converted', 'property': 'C18', 'kind': 'mutant', 'expect_rule': 'O10',
+  'edits': [{'file': 'src/geophires_x/Economics.py', 'old': "                                                                                    model.wellbores.Nonvertical_length.value / 1000.0,", 'new': "                                                                                    model.wellbores.Nonvertical_length.value,"}]},
 ]
